@@ -53,6 +53,12 @@ def strip_unique(j):
     return j
 
 
+def strip_keys(j, keys):
+    if isinstance(j, dict): return {k: strip_keys(v, keys) for k, v in j.items() if k not in keys}
+    if isinstance(j, list): return [strip_keys(v, keys) for v in j]
+    return j
+
+
 def no_fbod(t):
     return not any(f["fbod"] for f in getattr(t, "fields", [])) and all(no_fbod(k) for k in t.kids)
 
@@ -108,6 +114,11 @@ def run(prop, seed, budget, ctx):
     g.kinds = g.kinds + ["depreq"]          # dependent_required classes: outside the Lean model (K skipped), inside the P checks
     n_types, per = {"C06": (250, 8), "C07": (250, 8), "C18": (250, 6)}[prop]
     types = [g.ty(3) for _ in range(n_types * budget)]
+    if prop == "C07":
+        # minProperties / maxProperties on a class-typed position bound the keys of the datum; a value whose image (completed
+        # with defaults) exceeds them is not a value of the constrained type
+        from engine_ser import has_props_bound_on_class
+        types = [t for t in types if not has_props_bound_on_class(t)]
     if prop == "C06":
         # field-level fall_back_on_default accepts what the schema cannot describe: outside the statement's domain
         types = [t for t in types if no_fbod(t)]
@@ -208,7 +219,9 @@ def run(prop, seed, budget, ctx):
                     hist["not-a-value-of-the-type(unique over sets)"] += 1; continue
                 hist["validates" if ok else "does-not-validate"] += 1
                 if not ok:
+                    only_dr = jsonschema.Draft202012Validator(strip_keys(real, {"dependentRequired"})).is_valid(j)
                     failures.append(pack(t, kind="P", ap=ap, so=extra, d=py_proto(d), d_repr=repr(d), serialized=j, k_ok=k_ok, real=real,
+                                         only_dependent_required=only_dr,
                                          why=["serialized-value-does-not-validate-against-serialization_schema"]))
         else:
             ver = extra
@@ -281,6 +294,9 @@ KF = {
     # a NamedTuple value in a union is serialized by an earlier tuple alternative (first isinstance match), not by its own
     "KF29": lambda c: _why(c, "serialized-value-does-not-validate") and c.get("k_ok") is not False and _f(c, "namedtuple")
                       and _f(c, "tuple", "vtuple") and _f(c, "union", "optional") and isinstance(c.get("serialized"), list),
+    # the serialization schema keeps `dependentRequired` although exclude_none / exclude_defaults can omit the dependent key
+    "KF44": lambda c: _why(c, "serialized-value-does-not-validate") and _f(c, "depreq") and c.get("only_dependent_required") is True
+                      and (c["so"]["exclude_none"] or c["so"]["exclude_defaults"]),
     # constraints on the float image of a large integer (checked after float(int) has rounded)
     "KF41": lambda c: c.get("k_ok") is not False and _f(c, "cfloat") and has_big_int(c["d"]),
 }
